@@ -185,7 +185,7 @@ Proof. exact drops_distinct. Qed.
 From AV.Model Require Import Base Bytes Vec Ops Interp.
 From AV.Spec Require Import WorldSpec.
 From AV.Proofs Require Import WorldProofs WorldFused OwnHistory.
-(** WHOLE HISTORIES WITH PANICKING USER CODE.  [WorldSpec.spec_step_f] gives a script step that carries a fuse (the (k+1)-th call of user code it makes panics) its meaning on lists; [spec_run_f] a whole history in which any step may carry one.  The fused fragment: clear and the drop of a whole vector (the destructor of element k panics: elements 0..k have been destroyed - each once -, the vector is empty - resp. gone, its storage released all the same -, elements k+1.. are leaked) a dropped removal handle of pop / remove / swap_remove (the element's destructor panics: the vector keeps the elements in front of the handle, the tail behind it is leaked), and a drain over any range that is dropped unconsumed (the destructor of its k-th element panics: the type-erased drain stops there, the typed one destroys the rest of the range all the same and unwinds; the tail is not moved: the vector keeps the elements in front of the range, the rest is leaked), erased and typed, with every fuse length (a fuse longer than the step changes nothing); steps without a fuse are the whole fragment of AV.Props.C01.  [C06_step_refines_fused] / [C06_history_refines_fused]: the byte-level machine ([Interp.run_step] with that fuse, through the unwinding glue of [Interp.exec]) shows exactly the specification's outcome, panic kind, events and lists, never faults, and the vectors stay represented - hence usable - afterwards, at any point of any history of any number of vectors.  [C06_history_exactly_once_fused] (on the specification, transferred by the refinement): after every such history the identities created are exactly those visible + destroyed + leaked, so nothing is destroyed twice, nothing destroyed or leaked is still visible, nothing is visible twice - the only damage is leaks.  Non-vacuity: [exf_admissible], [exf_outcomes] (a 30-step history with nine armed steps).  Still one-step theorems + correspondence: panics inside partly consumed drains, splice, clone, lazy clones, and replacement iterators that panic. *)
+(** WHOLE HISTORIES WITH PANICKING USER CODE.  [WorldSpec.spec_step_f] gives a script step that carries a fuse (the (k+1)-th call of user code it makes panics) its meaning on lists; [spec_run_f] a whole history in which any step may carry one.  The fused fragment: clear and the drop of a whole vector (the destructor of element k panics: elements 0..k have been destroyed - each once -, the vector is empty - resp. gone, its storage released all the same -, elements k+1.. are leaked) a dropped removal handle of pop / remove / swap_remove (the element's destructor panics: the vector keeps the elements in front of the handle, the tail behind it is leaked), a drain over any range that is dropped unconsumed (the destructor of its k-th element panics: the type-erased drain stops there, the typed one destroys the rest of the range all the same and unwinds; the tail is not moved: the vector keeps the elements in front of the range, the rest is leaked), and a splice (honest replacement values, any range, result that fits) that is dropped unconsumed: a destructor of the range panics (as the drain; every replacement value is destroyed once), or - the range being gone - the f-th call of the replacement iterator's next() panics (the values not yet pulled are destroyed once each, those already moved in and the tail are leaked, the vector keeps the elements in front of the range: [C06_splice_drop_fused], the one-step theorem that was missing), erased and typed, with every fuse length (a fuse longer than the step changes nothing); steps without a fuse are the whole fragment of AV.Props.C01.  [C06_step_refines_fused] / [C06_history_refines_fused]: the byte-level machine ([Interp.run_step] with that fuse, through the unwinding glue of [Interp.exec]) shows exactly the specification's outcome, panic kind, events and lists, never faults, and the vectors stay represented - hence usable - afterwards, at any point of any history of any number of vectors.  [C06_history_exactly_once_fused] (on the specification, transferred by the refinement): after every such history the identities created are exactly those visible + destroyed + leaked, so nothing is destroyed twice, nothing destroyed or leaked is still visible, nothing is visible twice - the only damage is leaks.  Non-vacuity: [exf_admissible], [exf_outcomes] (a 40-step history with twelve armed steps).  Still one-step theorems + correspondence: panics inside partly consumed drains / splices, clone, lazy clones, and lying replacement iterators that also panic, and replacement iterators that panic. *)
 Theorem C06_clear_fused :
   forall (c : cfg) (v : vec) (u : uw) (xs : list N) (k : N),
          Rep c v xs ->
@@ -245,8 +245,72 @@ Theorem C06_drop_range_fused :
                if k <? N.of_nat (j - i)
                then map EDrop (if known then ys else firstn (S (N.to_nat k)) ys)
                else map EDrop ys
-              else []) ++ ulog u.
+              else []) ++ ulog u /\
+           (c_dg c && (k <? N.of_nat (j - i)) = false ->
+            ufuse u' = Some (k - (if c_dg c then N.of_nat (j - i) else 0))).
 Proof. exact drop_range_fused. Qed.
+
+Theorem C06_splice_fill_fused :
+  forall (c : cfg) (kf : bool) (ts : list N) (p : nat) (w : N) (v : vec) (u : uw) (f : N),
+         store_ok c v ->
+         N.of_nat (p + length ts) <= vcap v ->
+         ufuse u = Some f ->
+         exists u' : uw,
+           splice_fill c (p * szn c) (length ts) w (map (fun t : N => honest_item c t kf) ts) (v, u) =
+           (if f <? N.of_nat (length ts)
+            then
+             Panic PUser (with_mem (mwrite (p * szn c) (flat (szn c) (firstn (N.to_nat f) ts)) (vmem v)) v, u')
+            else
+             Ok (w + N.of_nat (length ts), []) (with_mem (mwrite (p * szn c) (flat (szn c) ts) (vmem v)) v, u')) /\
+           unext u' = unext u /\
+           ulog u' =
+           (if f <? N.of_nat (length ts)
+            then
+             (if c_dg c then rev (map EDrop (skipn (N.to_nat f) ts)) else []) ++ repeat ENext (S (N.to_nat f))
+            else repeat ENext (length ts)) ++ ulog u /\
+           ufuse u' = (if f <? N.of_nat (length ts) then None else Some (f - N.of_nat (length ts))).
+Proof. exact splice_fill_fused. Qed.
+
+Theorem C06_splice_drop_fused :
+  forall (c : cfg) (v : vec) (u : uw) (xs : list N) (s e i j : nat) (known : bool) 
+           (ts : list N) (kf : bool) (k : N),
+         cfg_wf c ->
+         RangeAlive c v xs s e i j ->
+         ufuse u = Some k ->
+         Forall (tok_ok (szn c)) ts ->
+         let new_len := (s + length ts + (length xs - e))%nat in
+         N.of_nat new_len <= vcap v \/ grow_ok c v (N.of_nat new_len) ->
+         let d :=
+           {|
+             dcur := {| ci := N.of_nat i; ce := N.of_nat j |};
+             dstart := N.of_nat s;
+             dend := N.of_nat e;
+             dorig := N.of_nat (length xs)
+           |} in
+         let range := firstn (j - i) (skipn i xs) in
+         let m := if c_dg c then N.of_nat (j - i) else 0 in
+         let caseA := c_dg c && (k <? N.of_nat (j - i)) in
+         let caseB := negb caseA && (k - m <? N.of_nat (length ts)) in
+         let f := N.to_nat (k - m) in
+         exists (v' : vec) (u' : uw),
+           splice_drop c known d (N.of_nat (length ts)) (map (fun t : N => honest_item c t kf) ts) (v, u) =
+           (if caseA || caseB then Panic PUser (v', u') else Ok tt (v', u')) /\
+           Rep c v' (if caseA || caseB then firstn s xs else VecSpec.sp_splice s e ts xs) /\
+           vbk v' = vbk v /\
+           unext u' = unext u /\
+           (N.of_nat new_len <= vcap v -> vcap v' = vcap v) /\
+           uevents u' =
+           rev
+             (if caseA
+              then
+               map EDrop (if known then range else firstn (S (N.to_nat k)) range) ++
+               (if c_dg c then map EDrop ts else [])
+              else
+               (if c_dg c then map EDrop range else []) ++
+               (if caseB
+                then repeat ENext (S f) ++ (if c_dg c then map EDrop (skipn f ts) else [])
+                else repeat ENext (length ts))) ++ uevents u.
+Proof. exact splice_drop_fused. Qed.
 
 (** one script step, with or without a fuse *)
 Theorem C06_step_refines_fused :
@@ -308,7 +372,13 @@ Theorem C06_example_outcomes :
           (0, 0, [], [[]; []; [11; 12; 13]]); (0, 0, [], [[]; []; [11; 12; 13; 14]]);
           (2, 8, [EDrop 11; EDrop 12], [[]; []; []]); (0, 0, [], [[]; []; [15]]);
           (0, 0, [], [[]; []; [15; 16]]); (0, 0, [], [[]; []; [15; 16; 17]]);
-          (2, 8, [EDrop 15; EDrop 16], [[]; []; []]); (0, 0, [], [[]; []; []])].
+          (2, 8, [EDrop 15; EDrop 16], [[]; []; []]); (0, 0, [], [[]; []; []]); (0, 0, [], [[]; []; [18]]);
+          (0, 0, [], [[]; []; [18; 19]]); (0, 0, [], [[]; []; [18; 19; 20]]);
+          (0, 0, [], [[]; []; [18; 19; 20; 21]]);
+          (2, 8, [EDrop 19; EDrop 20; EDrop 22; EDrop 23], [[]; []; [18]]); (0, 0, [], [[]; []; [18; 24]]);
+          (0, 0, [], [[]; []; [18; 24; 25]]); (0, 0, [], [[]; []; [18; 24; 25; 26]]);
+          (2, 8, [EDrop 24; ENext; ENext; EDrop 28; EDrop 29], [[]; []; [18]]);
+          (0, 0, [EDrop 18; ENext], [[]; []; [30]])].
 Proof. exact exf_outcomes. Qed.
 
 (* ---- end histories ---- *)
@@ -326,6 +396,8 @@ Print Assumptions C06_drops_distinct.
 Print Assumptions C06_clear_fused.
 Print Assumptions C06_handle_drop_fused.
 Print Assumptions C06_drop_range_fused.
+Print Assumptions C06_splice_fill_fused.
+Print Assumptions C06_splice_drop_fused.
 Print Assumptions C06_step_refines_fused.
 Print Assumptions C06_history_refines_fused.
 Print Assumptions C06_history_accounting_fused.
